@@ -265,6 +265,10 @@ pub fn gen_scn(rng: &mut Rng, exec: u64, prop: Prop, o: &GenOpts) -> Scn {
         if rng.chance(1, 2) {
           s.cache.wheel = Some((8, Duration::from_millis(500)));
         }
+        // stale-while-revalidate refreshes overwrite a resident (stale) entry from the loader thread
+        if s.loader && s.cache.ttl.is_some() && rng.chance(1, 2) {
+          s.cache.swr = Some(Duration::from_millis(rng.range(500, 4000)));
+        }
       }
       let rm = if m == Mode::Remove || mixed { 1 } else { 0 };
       let cl = if m == Mode::Clear || mixed { 1 } else { 0 };
